@@ -402,7 +402,7 @@ var All = []*Adapter{
 		return Result{Val: &ls, Rem: rem, HasRem: true, OK: err == nil}
 	}},
 	{Name: "ReadEncryptedLeaseSet", C08: true, Gen: func(r *engine.RNG) *engine.Shape {
-		sh := &engine.Shape{Kind: "els", Seed: r.Uint64() | 1, IdentSeed: 1 + uint64(r.Intn(6)), Sig: r.PickInt(7, 7, 11, 11, 0, 1, 2, 3, 4, 8), Size: r.PickInt(61, 61, 62, 100, 400, 60, 1, 255, 256, 65535)}
+		sh := &engine.Shape{Kind: "els", Seed: r.Uint64() | 1, IdentSeed: 1 + uint64(r.Intn(6)), Sig: r.PickInt(7, 7, 11, 11, 0, 1, 2, 3, 4, 8), Size: r.PickInt(61, 61, 62, 100, 400, 60, 1, 255, 256, 4096, 16384, 32768, 32769, 40000, 65535)}
 		sh.U = []uint64{r.Uint64() & 0xFFFFFFFF, 1 + r.Uint64()&0xFFFE, uint64(r.Intn(2)) << 1}
 		if r.Chance(1, 3) {
 			sh.Offline = offline(r, allTransients)
